@@ -311,8 +311,47 @@ func randomBytes(n int) []byte {
 func (w *wsConn) send(payload []byte) error { return w.sendOp(2, payload) }
 
 func (w *wsConn) sendOp(op byte, payload []byte) error {
+	_, err := w.c.Write(wsFrame(true, op, payload))
+	return err
+}
+
+// sendFragments sends one message as several frames (a first frame without FIN
+// followed by continuation frames), each frame written separately.
+func (w *wsConn) sendFragments(parts [][]byte) error {
+	for i, p := range parts {
+		op := byte(0)
+		if i == 0 {
+			op = 2
+		}
+		if _, err := w.c.Write(wsFrame(i == len(parts)-1, op, p)); err != nil {
+			return err
+		}
+		time.Sleep(2 * time.Millisecond)
+	}
+	return nil
+}
+
+// sendSplit sends one single-frame message in two socket writes with a pause in between.
+func (w *wsConn) sendSplit(payload []byte, at int, pause time.Duration) error {
+	f := wsFrame(true, 2, payload)
+	if at <= 0 || at >= len(f) {
+		at = len(f) / 2
+	}
+	if _, err := w.c.Write(f[:at]); err != nil {
+		return err
+	}
+	time.Sleep(pause)
+	_, err := w.c.Write(f[at:])
+	return err
+}
+
+func wsFrame(fin bool, op byte, payload []byte) []byte {
 	var h []byte
-	h = append(h, 0x80|op)
+	b0 := op
+	if fin {
+		b0 |= 0x80
+	}
+	h = append(h, b0)
 	n := len(payload)
 	switch {
 	case n < 126:
@@ -331,8 +370,7 @@ func (w *wsConn) sendOp(op byte, payload []byte) error {
 	for i := range payload {
 		out[i] = payload[i] ^ mask[i%4]
 	}
-	_, err := w.c.Write(append(h, out...))
-	return err
+	return append(h, out...)
 }
 
 var errWsClosed = errors.New("websocket closed")
